@@ -317,12 +317,18 @@ static std::string stream_problem(const ST::string_stream &ss, const std::string
 
 static void other_scenarios()
 {
+    // pre-state: grown to `pre` bytes, then cut back (0 none, 1 truncate(0), 2 truncate(10), 3 erase everything, 4 erase(pre-1))
     for (size_t pre : {size_t(0), size_t(200), size_t(256), size_t(300), size_t(1000)})
+      for (int cut = 0; cut < 5; ++cut)
         for (size_t add : {size_t(57), size_t(300), size_t(5000)}) {
-            g_scn.push_back(Scenario{vf::strf("string_stream[%zu].append(%zu bytes)", pre, add), [=](vf::Outcome &oc) {
+            g_scn.push_back(Scenario{vf::strf("string_stream[grown to %zu, cut mode %d].append(%zu bytes)", pre, cut, add), [=](vf::Outcome &oc) {
                                          std::string pv(pre, 'p'), av(add, 'a');
                                          ST::string_stream ss;
                                          SETUP(ss.append(pv.data(), pv.size()));
+                                         if (cut == 1) { ss.truncate(0); pv.clear(); }
+                                         if (cut == 2) { ss.truncate(10); pv.resize(std::min<size_t>(10, pv.size())); }
+                                         if (cut == 3) { ss.erase(pre); pv.clear(); }
+                                         if (cut == 4 && pre > 0) { ss.erase(pre - 1); pv.resize(1); }
                                          oc = vf::guard([&] { LIB(ss.append(av.data(), av.size())); });
                                          std::string pr = oc.ok() ? "" : stream_problem(ss, pv);
                                          if (pr.empty() && !oc.ok()) {
